@@ -2,6 +2,7 @@ package rules
 
 import (
 	"fmt"
+	"os"
 	"sort"
 	"strings"
 
@@ -74,11 +75,25 @@ func runPO(p *model.Prog, r *report.Result, cfg poConfig) (*po.Engine, int) {
 	})
 	n := 0
 	for _, ob := range obs {
+		if os.Getenv("LALCHECK_PO_DEBUG") != "" {
+			fmt.Printf("POOB %s %s %s status=%d proof=%s fails=%d\n", model.FnName(ob.Fn), ob.Kind, ob.Expr, ob.Status, ob.Proof, len(ob.Fails))
+		}
 		ffn := ob.Fn
 		if model.IsNaza(ffn) && ob.FailFn != nil {
 			ffn = ob.FailFn // a helper's failing precondition is attributed to the caller that cannot establish it
 		}
-		if cfg.filter != nil && !cfg.filter(ffn) {
+		if len(ob.Fails) > 0 && cfg.filter != nil {
+			// requirements failing at callers: in scope when the function itself or any failing caller is
+			keep := cfg.filter(ob.Fn)
+			for _, f := range ob.Fails {
+				if cfg.filter(f.Fn) {
+					keep = true
+				}
+			}
+			if !keep {
+				continue
+			}
+		} else if cfg.filter != nil && !cfg.filter(ffn) {
 			continue
 		}
 		if cfg.kinds != nil && !cfg.kinds[ob.Kind] {
@@ -97,6 +112,16 @@ func runPO(p *model.Prog, r *report.Result, cfg poConfig) (*po.Engine, int) {
 		case po.Lifted:
 			r.Ok(cfg.rule, key, pos, "precondition discharged at every caller: "+ob.Proof)
 		case po.Unproved:
+			if len(ob.Fails) > 0 {
+				// one finding per caller that cannot establish the requirement
+				for _, f := range ob.Fails {
+					if cfg.filter != nil && !cfg.filter(f.Fn) && !(cfg.filter(ob.Fn) && !model.IsNaza(ob.Fn)) {
+						continue
+					}
+					r.Bad(cfg.rule, key+"@"+model.FnName(f.Fn), pos, f.Proof+" [fails at "+p.InstrPos(f.At)+"] via "+model.PathTo(reach, ob.Fn))
+				}
+				break
+			}
 			where := ""
 			if ob.FailAt != nil && ob.FailAt != ob.Instr {
 				where = " [fails at " + p.InstrPos(ob.FailAt) + "]"
